@@ -1,7 +1,19 @@
-//! C29: the RRDP-to-rsync fallback table, all 96 rows, against the real
+//! C29: the RRDP-to-rsync fallback table against the real
 //! `collector::Run::repository` with real transports: an HTTPS server that
 //! serves (or refuses) a small RRDP repository, the fake clock for the
 //! best-before time of the local copy, the fake rsync command.
+//!
+//! Two families of rows:
+//! * the full product policy × outcome × RRDP on/off × rsync on/off ×
+//!   rpkiNotify present/absent (96 rows);
+//! * rows with a local copy and a failing update where the configuration
+//!   (`refresh`, `rrdp-fallback-time`) and the clock change between the
+//!   successful update that stored the copy and the failing one.
+//!
+//! The oracle never trusts the implementation's own classification: it
+//! decodes the best-before time actually stored in the archive, compares it
+//! with the (fake) clock and demands the statement's table for the outcome
+//! class that follows.
 
 use std::path::{Path, PathBuf};
 use std::str::FromStr;
@@ -13,7 +25,7 @@ use rpki::repository::resources::Prefix;
 use rpki::repository::tal::{TalInfo, TalUri};
 use rpki::repository::x509::{Time, Validity};
 use rpki::uri;
-use routinator::collector::Collector;
+use routinator::collector::{Collector, RrdpArchive};
 use routinator::collector::verif_api::LoadResult;
 use routinator::config::{Config, FallbackPolicy};
 use routinator::engine::CaCert;
@@ -145,24 +157,69 @@ fn take_rsync_log(path: &Path) -> Vec<String> {
     res
 }
 
+/// The best-before time stored in the local copy of the repository, if
+/// there is a local copy (read from the archive file itself).
+fn stored_best_before(config: &Config, notify: &uri::Https) -> Option<i64> {
+    // the only archive in this row's cache: cache/rrdp/<authority>/<hash>.bin
+    for dir in std::fs::read_dir(config.cache_dir.join("rrdp")).ok()?.flatten() {
+        if dir.file_name() == "tmp" || !dir.path().is_dir() { continue }
+        for file in std::fs::read_dir(dir.path()).ok()?.flatten() {
+            if file.path().extension().map(|e| e == "bin").unwrap_or(false) {
+                let archive = RrdpArchive::open(Arc::new(file.path())).ok()?;
+                let state = archive.load_state().ok()?;
+                if state.rpki_notify != *notify { return None }
+                return Some(state.best_before_ts)
+            }
+        }
+    }
+    None
+}
+
+/// What lies between the successful update that stored the copy and the row.
+struct Between {
+    prep_refresh: u64,
+    prep_fallback: u64,
+    refresh: u64,
+    fallback: u64,
+    clock: String,
+}
+
 fn run_row(ctx: &mut Ctx, env: &mut Env, input: &Value) {
     let (Some(policy), Some(outcome)) = (input["policy"].as_str(), input["outcome"].as_str()) else { return };
     let (Some(rrdp), Some(rsync), Some(notify)) =
         (input["rrdp"].as_bool(), input["rsync"].as_bool(), input["notify"].as_bool()) else { return };
-    let Some(fallback) = policy_of(policy) else { return };
-    if !["updated", "current", "stale", "unavailable"].contains(&outcome) { return }
+    let Some(fallback_policy) = policy_of(policy) else { return };
+    // `copy` = a local copy and a failing update; current or stale is decided by the stored
+    // best-before time and the clock, not by the row's label.
+    if !["updated", "current", "stale", "unavailable", "copy"].contains(&outcome) { return }
+    let between = {
+        let b = &input["between"];
+        let num = |key: &str, default: u64| b[key].as_u64().unwrap_or(default);
+        Between {
+            prep_refresh: num("prep_refresh", REFRESH), prep_fallback: num("prep_fallback", FALLBACK),
+            refresh: num("refresh", REFRESH), fallback: num("fallback", FALLBACK),
+            clock: b["clock"].as_str().map(String::from).unwrap_or_else(|| match outcome {
+                "stale" => "beyond".into(),
+                _ => "within".into(),
+            }),
+        }
+    };
     env.n += 1;
     let cache = env.dir.join(format!("row{}", env.n));
     let _ = std::fs::remove_dir_all(&cache);
     std::fs::create_dir_all(&cache).unwrap();
     rvcore::clock::set(T0, 0);
+    let secs = std::time::Duration::from_secs;
 
     // The world that produces the outcome.
     let dir = "/rrdp";
-    if outcome == "current" || outcome == "stale" {
-        // a successful update at T0 leaves a local copy …
+    let has_copy = ["current", "stale", "copy"].contains(&outcome);
+    if has_copy {
+        // a successful update at T0, under the configuration of that time, leaves a local copy
         serve_repository(&env.srv, dir);
-        let prep = base_config(&cache);
+        let mut prep = base_config(&cache);
+        prep.refresh = secs(between.prep_refresh);
+        prep.rrdp_fallback_time = secs(between.prep_fallback);
         let mut collector = Collector::new(&prep).expect("collector");
         collector.ignite().expect("ignite");
         let run = collector.start();
@@ -174,21 +231,37 @@ fn run_row(ctx: &mut Ctx, env: &mut Env, input: &Value) {
             }
         }
     }
-    match outcome {
-        "updated" => serve_repository(&env.srv, dir),
-        // … which is still good shortly afterwards and expired after the fallback time
-        "current" => { refuse_repository(&env.srv, dir); rvcore::clock::set(T0 + 10, 0) }
-        "stale" => { refuse_repository(&env.srv, dir); rvcore::clock::set(T0 + FALLBACK as i64 + 400, 0) }
-        _ => refuse_repository(&env.srv, dir),
+    let update_ok = outcome == "updated";
+    if update_ok { serve_repository(&env.srv, dir) } else { refuse_repository(&env.srv, dir) }
+
+    // The row's configuration …
+    let mut config = base_config(&cache);
+    config.refresh = secs(between.refresh);
+    config.rrdp_fallback_time = secs(between.fallback);
+    config.rrdp_fallback = fallback_policy;
+    config.disable_rrdp = !rrdp;
+    config.disable_rsync = !rsync;
+    // … what is stored …
+    let stored = stored_best_before(&config, &env.cas.notify);
+    if has_copy != stored.is_some() {
+        ctx.oracle_fail("setup-broken", "local copy missing or unexpected", input, json!({"stored": stored}));
+        return
     }
+    // … and the clock.
+    let now = match (between.clock.as_str(), stored) {
+        ("back", _) => T0 - 500,
+        ("edge-1", Some(bb)) => bb - 1,
+        ("edge", Some(bb)) => bb,
+        ("edge+1", Some(bb)) => bb + 1,
+        ("beyond", Some(bb)) => bb + 5000,
+        ("beyond", None) => T0 + 20_000,
+        _ => T0 + 10,
+    };
+    rvcore::clock::set(now, 0);
     let _ = env.srv.take_log();
     let _ = take_rsync_log(&env.rsync_log);
 
     // The row itself.
-    let mut config = base_config(&cache);
-    config.rrdp_fallback = fallback;
-    config.disable_rrdp = !rrdp;
-    config.disable_rsync = !rsync;
     let mut collector = Collector::new(&config).expect("collector");
     collector.ignite().expect("ignite");
     let run = collector.start();
@@ -221,20 +294,55 @@ fn run_row(ctx: &mut Ctx, env: &mut Env, input: &Value) {
     let b = |x: bool| x as u8;
     ctx.case(
         input,
-        &format!("c29 {policy} {} {} {} {outcome}", b(rrdp), b(rsync), b(notify)),
+        &format!(
+            "c29 {policy} {} {} {} {} {} {now} {} {}", b(rrdp), b(rsync), b(notify), b(update_ok),
+            stored.map(|v| v.to_string()).unwrap_or_else(|| "-".into()), between.refresh, between.fallback
+        ),
         &format!("transport={transport} asks={} outcome={observed_outcome}", b(asked)),
     );
     ctx.count(&format!("transport:{transport}"));
     ctx.count(&format!("outcome:{observed_outcome}"));
-    ctx.nontrivial(format!("{policy}/{outcome}/{rrdp}/{rsync}/{notify}"));
 
-    let expected = expected_transport(policy, outcome, rrdp, rsync, notify);
-    let class = format!("row:{policy}/{outcome}/rrdp={}/rsync={}/notify={}", b(rrdp), b(rsync), b(notify));
+    // The outcome class by the statement's words, from what is stored and the clock:
+    // "current copy" = the stored best-before time has not passed, "expired" = it has.
+    // In the very second of the best-before time the statement does not decide; the
+    // implementation's answer is taken there.
+    let truth = if update_ok { "updated" } else {
+        match stored {
+            None => "unavailable",
+            Some(bb) if now < bb => "current",
+            Some(bb) if now > bb => "stale",
+            Some(_) => if observed_outcome == "-" { "current" } else { observed_outcome },
+        }
+    };
+    ctx.count(&format!("truth:{truth}"));
+    ctx.nontrivial(format!(
+        "{policy}/{truth}/{rrdp}/{rsync}/{notify}/{}/{}/{}",
+        between.refresh.cmp(&between.prep_refresh) as i8,
+        between.fallback.cmp(&between.prep_fallback) as i8, between.clock
+    ));
+    if ["current", "stale"].contains(&outcome) && outcome != truth {
+        ctx.oracle_fail("setup-broken", "the row did not produce the outcome it is named after", input,
+            json!({"stored_best_before": stored, "now": now, "truth": truth}));
+    }
+
+    let expected = expected_transport(policy, truth, rrdp, rsync, notify);
+    let changed = between.refresh != between.prep_refresh || between.fallback != between.prep_fallback
+        || between.clock == "back";
+    let class = format!(
+        "row:{policy}/{truth}/rrdp={}/rsync={}/notify={}{}", b(rrdp), b(rsync), b(notify),
+        if changed { "/config-or-clock-changed" } else { "" }
+    );
     if transport != expected {
         ctx.oracle_fail(
-            &class, &format!("transport used is {transport}, the policy table says {expected}"),
+            &class,
+            &format!(
+                "transport used is {transport}, the policy table says {expected} (update {}, stored best-before {}, now {now}: {truth})",
+                if update_ok { "succeeded" } else { "failed" },
+                stored.map(|v| v.to_string()).unwrap_or_else(|| "none".into()),
+            ),
             input, json!({"transport": transport, "expected": expected, "rsync_spawned": spawned,
-                "rrdp_asked": asked, "rrdp_outcome": observed_outcome}),
+                "rrdp_asked": asked, "rrdp_outcome": observed_outcome, "stored_best_before": stored, "now": now}),
         );
     }
     // the wire agrees with the answer
@@ -277,12 +385,54 @@ pub fn all_rows() -> Vec<Value> {
     res
 }
 
+/// Rows with a local copy and a failing update where configuration and clock
+/// change between the update that stored the copy and the failing one:
+/// refresh and rrdp-fallback-time each unchanged / lowered / raised, the
+/// clock stepped back, shortly after, one second before / at / after the
+/// stored best-before time, far beyond it.
+pub fn between_rows() -> Vec<Value> {
+    const PREP_REFRESH: u64 = 3000;
+    const PREP_FALLBACK: u64 = 9000;
+    let mut res = Vec::new();
+    for policy in ["never", "stale", "new"] {
+        for refresh in [PREP_REFRESH, 600, 8000] {
+            for fallback in [PREP_FALLBACK, 1200, 30_000] {
+                for clock in ["back", "within", "edge-1", "edge", "edge+1", "beyond"] {
+                    res.push(json!({
+                        "policy": policy, "outcome": "copy", "rrdp": true, "rsync": true, "notify": true,
+                        "between": {
+                            "prep_refresh": PREP_REFRESH, "prep_fallback": PREP_FALLBACK,
+                            "refresh": refresh, "fallback": fallback, "clock": clock
+                        }
+                    }));
+                }
+            }
+        }
+    }
+    // the other switches once with everything lowered
+    for (rrdp, rsync, notify) in [(true, false, true), (false, true, true), (true, true, false)] {
+        for clock in ["within", "beyond"] {
+            res.push(json!({
+                "policy": "stale", "outcome": "copy", "rrdp": rrdp, "rsync": rsync, "notify": notify,
+                "between": {
+                    "prep_refresh": PREP_REFRESH, "prep_fallback": PREP_FALLBACK,
+                    "refresh": 600, "fallback": 1200, "clock": clock
+                }
+            }));
+        }
+    }
+    res
+}
+
 pub fn run_c29(ctx: &mut Ctx) {
-    ctx.rule = "the full product fallback policy × RRDP outcome × RRDP enabled × rsync enabled × rpkiNotify present \
-        (96 rows, exhaustive in both tiers, order shuffled by the seed); each row is produced with real transports: \
-        an HTTPS server serving or refusing a one-object RRDP repository, a preparatory successful update plus the \
-        fake clock before/after the best-before time for current/stale, the fake rsync command; observed: the \
-        transport of the repository handed back, rsync spawns, notification requests, the runner's LoadResult".into();
+    ctx.rule = "(a) the full product fallback policy × RRDP outcome × RRDP enabled × rsync enabled × rpkiNotify present \
+        (96 rows) and (b) 168 rows with a local copy and a failing update where refresh and rrdp-fallback-time are each \
+        unchanged / lowered / raised and the clock is stepped back / shortly after / one second before, at, after the \
+        stored best-before / far beyond, between the update that stored the copy and the failing one; exhaustive in \
+        both tiers, order shuffled by the seed; each row is produced with real transports (HTTPS server serving or \
+        refusing a one-object RRDP repository, preparatory successful update, fake clock, fake rsync command); the \
+        outcome class is derived from the best-before time decoded from the archive and the clock; observed: transport \
+        handed back, rsync spawns, notification requests, the runner's LoadResult".into();
     let dir = ctx.out.join("c29");
     let _ = std::fs::remove_dir_all(&dir);
     std::fs::create_dir_all(&dir).unwrap();
@@ -298,6 +448,7 @@ pub fn run_c29(ctx: &mut Ctx) {
         None => {
             let mut res = ctx.corpus("C29");
             let mut rows = all_rows();
+            rows.extend(between_rows());
             ctx.rng.shuffle(&mut rows);
             res.extend(rows);
             res
